@@ -21,8 +21,7 @@ ASSUMPTIONS = [
     "note/frequency matching criteria (transcription, multipitch) are compared at the level of the feasibility "
     "predicate evaluated in floating point by the code vs exact rationals in the model, on lattice inputs",
 ]
-UNPROVED = ["fastHitWindows_spec (two searchsorted calls = |ref_i - est_j| <= w) — compared exhaustively, not yet proved",
-            "maximality of a transliteration of the Python Hopcroft-Karp for all graphs"]
+UNPROVED = ["maximality of a transliteration of the Python Hopcroft-Karp for all graphs (its outputs are certified per instance)"]
 EXHAUSTIVE = {"quick": True, "thorough": True}
 
 
